@@ -215,6 +215,9 @@ T_C17 = T("C17", "wrun_wf", "state_inv", "closed_write", "closed_readFrom", "clo
           "reader_reset_obsEq", "robsEq_step", "reader_reset_equiv") \
     + T("C17", "close_closes_partial", "error_sticky_partial", "apply_only_new_partial", kind="for every well-formed state (every reachable state is well-formed: wrun_wf)") \
     + T("C17", "close_closes_false", "error_sticky_false", "apply_only_new_false", "reader_eof_closes_false", kind="counterexample on a state no call sequence reaches / on the empty stream (see DESIGN.md)")
+T_C08t = T("C08trace", "W.trace_valid", "W.trace_valid_complete", "W.trace_tail", "W.trace_valid_strict", "W.strict_checker_sound",
+           "R.trace_valid", "R.trace_valid_complete", "R.trace_valid_hook", "R.trace_valid_complete_hook", "R.trace_tail", "R.trace_tail_hook",
+           "W.rejects_reorder", "W.rejects_uncompressed", "W.rejects_early_release", "W.rejects_lost_block", "R.rejects_reorder", "R.rejects_gap")
 T_C09 = T("C09", "idx_valid", "c09_writer", "c09_writer_fast", "c09_clean") + T("C09full", "hcCorrect", "c09_writer_all", "c09_clean_all", ns="C09")
 T_C19 = T("C19", "c19_accept_iff", "c19_bad_checksum", "c19_bad_block_size", "c19_size", "c19_bad_magic", "c19_spec", "c19_reader_size")
 
@@ -308,7 +311,7 @@ def x_c20(run):
 SCHED = {"VERIF_SCHED": "1"}
 PROPS = {
     "C08": dict(runs=[FW("conc", judge=j_c08, env=SCHED), FR("frmut", judge=j_c08, env={"VERIF_SCHED": "2"}), FW("fwfail", judge=j_c08, env={"VERIF_SCHED": "3"})],
-                extra=[x_c08_race], theorems=T_C08),
+                extra=[x_c08_race], theorems=T_C08 + T_C08t),
     "C20": dict(runs=[], extra=[x_c20], theorems=T_C20 + T("C02", "c02_roundtrip"),
                 rule="each case = (flag set, generated file, mode, file or stdin/stdout); every case is non-trivial; distinct = distinct case description"),
     "C02": dict(runs=[FW("fw", judge=j_c02w), FR("fr", judge=j_c02r)], theorems=T("C02", "c02_roundtrip", "c02_roundtrip_read", "c02_roundtrip_read_consumed", "c02_read_no_error", "written_lenient") + T("C09full", "c09_writer_all", ns="C09")),
